@@ -129,8 +129,12 @@ void h_parseNumber(void) {
     for (int k = 3; k < NB - 4; k++) __CPROVER_assume(buf[k] == '0'); }
 #endif
 #ifdef SHAPE_LONGINT
-  /* shape-restricted job: [-] followed by at least NB-5 digits, then at most 3 arbitrary bytes (19/20/21+ digit integers) */
-  for (int k = 1; k < NB - 4; k++) __CPROVER_assume(dig((char)buf[k]));
+  /* shape-restricted job: [-] followed by at least NB-LONGINT_FREE-1 digits, then LONGINT_FREE arbitrary bytes (18..26-digit integers: the 19/20/21-digit
+   * uint64 / int64 boundaries, and long integers followed by a fraction or an exponent) */
+#ifndef LONGINT_FREE
+#define LONGINT_FREE 9
+#endif
+  for (int k = 1; k < NB - LONGINT_FREE; k++) __CPROVER_assume(dig((char)buf[k]));
 #endif
   Parser P; P.json_buf_ = buf; P.len_ = NB; P.pos_ = 1; P.err_ = kErrorNone;
   SAX sax; sax.kind = 0; sax.calls = 0;
